@@ -149,6 +149,9 @@ type Engine struct {
 	PosStats map[string]*PosStat
 	Untyped  map[string]int // "site -> verbatim|redacted" observations of TLS-shaped values in untyped sites (not compared)
 	Statuses map[string]int
+	// interleaved histories (interleave.go)
+	KeylessShown int            // TLS contexts configured without a key found in a body (not compared)
+	IStats       map[string]int // vacuity guards of the interleaved parts
 }
 
 type PosStat struct {
@@ -162,7 +165,7 @@ type PosStat struct {
 }
 
 func NewEngine(env Env, sets []PosSet) *Engine {
-	e := &Engine{Env: env, Sets: map[string]PosSet{}, PosStats: map[string]*PosStat{}, Untyped: map[string]int{}, Statuses: map[string]int{}}
+	e := &Engine{Env: env, Sets: map[string]PosSet{}, PosStats: map[string]*PosStat{}, Untyped: map[string]int{}, Statuses: map[string]int{}, IStats: map[string]int{}}
 	for _, s := range sets {
 		e.Sets[s.Name] = s
 	}
@@ -185,9 +188,25 @@ type run struct {
 	held    []interface{}
 	names   Names
 	heldCap int
+	// state of the set's positions in the objects being installed (interleaved
+	// histories, see interleave.go): "" / "K" every position holds a TLS context
+	// with a private key, "E" a TLS context without a private key, "N" no TLS
+	// context at all (the position is left unfilled)
+	state string
+}
+
+// withState installs through f with the positions of the set in state st.
+func (r *run) withState(st string, f func()) {
+	old := r.state
+	r.state, r.g.Keyless = st, st == StateNoKey
+	defer func() { r.state, r.g.Keyless = old, old == StateNoKey }()
+	f()
 }
 
 func (r *run) fillRoot(root string, v reflect.Value, tag string) {
+	if r.state == StateNoTLS {
+		return
+	}
 	for _, p := range r.set.Pos {
 		if p.Root == root && p.Kind != KindExtTLS {
 			Fill(v, p, tag, r.g)
@@ -210,12 +229,17 @@ func (r *run) listener(name, tag string) {
 		// the way a configured listener arrives: FilterChain.UnmarshalJSON
 		// derives TLSContexts from tls_context / tls_context_set and keeps both
 		pos := r.set.Pos[0]
-		a, b, c := r.g.add(pos, tag, "0.tls_context"), r.g.add(pos, tag, "1.tls_context_set.0"), r.g.add(pos, tag, "1.tls_context_set.1")
-		doc := map[string]interface{}{"name": name, "address": "127.0.0.1:0",
-			"filter_chains": []interface{}{
+		doc := map[string]interface{}{"name": name, "address": "127.0.0.1:0"}
+		if r.state == StateNoTLS {
+			// a configured listener without TLS: FilterChain.UnmarshalJSON generates TLSContexts [{}]
+			doc["filter_chains"] = []interface{}{map[string]interface{}{}, map[string]interface{}{}}
+		} else {
+			a, b, c := r.g.add(pos, tag, "0.tls_context"), r.g.add(pos, tag, "1.tls_context_set.0"), r.g.add(pos, tag, "1.tls_context_set.1")
+			doc["filter_chains"] = []interface{}{
 				map[string]interface{}{"tls_context": a.tlsMap()},
 				map[string]interface{}{"tls_context_set": []interface{}{b.tlsMap(), c.tlsMap()}},
-			}}
+			}
+		}
 		raw, _ := json.Marshal(doc)
 		if err := json.Unmarshal(raw, l); err != nil {
 			panic("c20: listener json: " + err.Error())
@@ -293,7 +317,10 @@ func (r *run) extends(tag, suffix string) {
 	}
 	sort.Strings(types)
 	for _, t := range types {
-		hold := ExtRaw(byType[t], tag, r.g)
+		hold := json.RawMessage(`{"cluster":"c20-no-tls","hosts":["127.0.0.1:9"]}`)
+		if r.state != StateNoTLS {
+			hold = ExtRaw(byType[t], tag, r.g)
+		}
 		r.held = append(r.held, &hold)
 		addName(&r.names.Extends, t+suffix)
 		r.e.Env.SetExtend(t+suffix, hold)
@@ -301,7 +328,10 @@ func (r *run) extends(tag, suffix string) {
 	for _, p := range r.set.Pos {
 		if p.Root == "extend" && p.Kind == KindRaw {
 			raw := &json.RawMessage{}
-			Fill(reflect.ValueOf(raw).Elem(), p, tag, r.g)
+			*raw = json.RawMessage(`{"c20":"no-tls"}`)
+			if r.state != StateNoTLS {
+				Fill(reflect.ValueOf(raw).Elem(), p, tag, r.g)
+			}
 			r.held = append(r.held, raw)
 			addName(&r.names.Extends, "c20_raw_site"+suffix)
 			r.e.Env.SetExtend("c20_raw_site"+suffix, *raw)
@@ -401,32 +431,48 @@ func (r *run) restart() restartSnap {
 	return s
 }
 
-// build installs the configuration of c on a reset configmanager.
-func (e *Engine) build(p *vreport.Part, c Case) *run {
-	set, ok := e.Sets[c.Set]
+// base installs the base configuration of a position set on a reset
+// configmanager, the set's positions in state init.
+func (e *Engine) base(p *vreport.Part, setName, init string) *run {
+	set, ok := e.Sets[setName]
 	if !ok {
-		vreport.HarnessError(p.Prop, p.Name, "unknown position set "+c.Set)
+		vreport.HarnessError(p.Prop, p.Name, "unknown position set "+setName)
 		return nil
 	}
 	r := &run{e: e, set: set, g: NewRegistry()}
 	e.Env.Reset()
 	// base configuration: every object kind exists, so that updates and
 	// removals of the history have something to act on
-	r.mosn("M0")
-	r.listener("L1", "L1")
-	r.cluster("C1", "C1")
-	r.router("R1", "R1")
-	if r.hasRoot("cmtls") {
-		r.cmtls("T0", false)
+	r.withState(init, func() {
+		r.mosn("M0")
+		r.listener("L1", "L1")
+		r.cluster("C1", "C1")
+		r.router("R1", "R1")
+		if r.hasRoot("cmtls") {
+			r.cmtls("T0", false)
+		}
+		r.extends("E0", "")
+	})
+	return r
+}
+
+func (r *run) countLeaves() {
+	for _, l := range r.g.Leaves {
+		r.e.stat(l.Pos).Leaves++
+		r.e.stat(l.Pos).Compared = l.Compared
 	}
-	r.extends("E0", "")
+}
+
+// build installs the configuration of c on a reset configmanager.
+func (e *Engine) build(p *vreport.Part, c Case) *run {
+	r := e.base(p, c.Set, "")
+	if r == nil {
+		return nil
+	}
 	for i, op := range c.History {
 		r.apply(op, i)
 	}
-	for _, l := range r.g.Leaves {
-		e.stat(l.Pos).Leaves++
-		e.stat(l.Pos).Compared = l.Compared
-	}
+	r.countLeaves()
 	return r
 }
 
@@ -439,7 +485,21 @@ type reqCase struct {
 // checkBody applies the body oracle: (1) no private-key marker anywhere,
 // (2) every TLS context the body shows carries the fixed placeholder.
 func (r *run) checkBody(p *vreport.Part, vc reqCase, status int, body []byte) {
-	e, ep := r.e, vc.Endpoint
+	r.checkBodyOf(p, vc.Endpoint, vc, status, body, nil)
+}
+
+// checkBodyOf is checkBody for any replayable case record vc. class, if given,
+// returns what is appended to the finding keys about leaf l (the history class
+// the leaf belongs to); it is also called for every compared leaf shown with
+// the placeholder (shown=true).
+func (r *run) checkBodyOf(p *vreport.Part, ep Endpoint, vc interface{}, status int, body []byte, class func(l *Leaf, shown bool) string) {
+	e := r.e
+	cls := func(l *Leaf, shown bool) string {
+		if class == nil || l == nil {
+			return ""
+		}
+		return class(l, shown)
+	}
 	form := formClass(ep.Form)
 	text := string(body)
 	for _, id := range Markers(text, "KEY-") {
@@ -450,7 +510,7 @@ func (r *run) checkBody(p *vreport.Part, vc reqCase, status int, body []byte) {
 				fmt.Sprintf("response body (status %d) contains private key marker KEY-(%s) that no position of this case owns", status, id), vc)
 		case l.Compared:
 			e.stat(l.Pos).Leaks++
-			p.Violation("private-key-leak position="+l.Pos+" endpoint="+form,
+			p.Violation("private-key-leak position="+l.Pos+" endpoint="+form+cls(l, false),
 				fmt.Sprintf("response body (status %d) of %q contains the private key %s configured at position %s; expected the placeholder. body excerpt: %s",
 					status, ep.Form, l.Key, l.Pos, excerpt(text, l.Key)), vc)
 		default:
@@ -478,22 +538,29 @@ func (r *run) checkBody(p *vreport.Part, vc reqCase, status int, body []byte) {
 			}
 			continue
 		}
+		if l.Keyless {
+			// a TLS context configured without a private key: there is nothing to
+			// replace, the statement does not say what is shown in its place
+			e.KeylessShown++
+			continue
+		}
 		e.stat(l.Pos).Found++
 		switch {
 		case isStr && strings.Contains(ks, "KEY-("):
 			// already reported as a leak
 		case !o.HasKey || !isStr || ks == "":
-			p.Violation("placeholder-missing position="+l.Pos+" endpoint="+form,
+			p.Violation("placeholder-missing position="+l.Pos+" endpoint="+form+cls(l, false),
 				fmt.Sprintf("the TLS context at %s is shown by %q but its %s is %v (present=%v): the statement requires the key to be replaced by a fixed placeholder",
 					l.Pos, ep.Form, TagPrivateKey, o.Key, o.HasKey), vc)
 		case e.Placeholder == "":
 			e.Placeholder = ks
 			e.stat(l.Pos).Placeholder++
 		case ks != e.Placeholder:
-			p.Violation("placeholder-not-fixed position="+l.Pos+" endpoint="+form,
+			p.Violation("placeholder-not-fixed position="+l.Pos+" endpoint="+form+cls(l, false),
 				fmt.Sprintf("the TLS context at %s shows %q where other positions show %q: the placeholder is not fixed", l.Pos, ks, e.Placeholder), vc)
 		default:
 			e.stat(l.Pos).Placeholder++
+			cls(l, true)
 		}
 	}
 }
